@@ -7,22 +7,37 @@ CLAIMED = {
          "D", "DESIGN.md §3.2, §5-C03",
          "Every execution of the real sample() over: all cases of envelope E (plus integer/float extremes and all Hypergeometric triples with N<=40) x base streams x request position x every word of the boundary lattice (0 then 1 deviation), and all 2^24 top-bit patterns of the first f32 draw. Each execution is checked against the family's support predicate and for panics (debug assertions and overflow checks on). This is the property's own quantifier (single adversarial word), enumerated completely over the stated finite alphabet.",
          "Trusted: rand 0.10 conversions; words outside the lattice are not explored (covered for the law by C01/C02 engine T); two simultaneous adversarial words are outside the property."),
+ "C01": ("model_checking", "exhaustive exploration of the execution tree of the real sample() under finite RNG alphabets (stateless explicit-state search with loop closure by bounded bisimulation; exact law of the finite-alphabet chain vs documented CDF with an a-posteriori error bound)",
+         "T", "DESIGN.md §3.1, §5-C01",
+         "For every continuous family x {f32,f64} x grid point of envelope E the complete execution graph of sample() is explored: macro-atom alphabets for StandardNormal/Exp1 draws (rebuilt from the code each run), midpoint lattices with dyadic tails for value-producing words, exact interval subdivision for comparison-only words, rejection loops closed by restart detection. The resulting exact output law is compared with the documented CDF at ~270 checkpoints (quantiles k/256 and tails to 1e-6).",
+         "Decided up to the computed tolerance (typ. 1e-4..1e-3 for one value-producing draw, >= one second-level cell (2e-3 quick) for two; cases with >= 4 value-producing draws are not judged in the quick tier). Assumption A-res (no feature narrower than the local resolution between explored words). References: closed forms / special crate, cross-checked against scipy."),
+ "C02": ("model_checking", "exhaustive exploration of the execution tree of the real sample() under finite RNG alphabets; exact pmf by interval subdivision + shift-restart closure for inverse transforms, lattices for BTPE/H2PE/PD",
+         "T", "DESIGN.md §3.1, §5-C02",
+         "Same engine as C01 on Binomial (all n<=30 x 18 p plus grids to 2^62), Poisson, Geometric, Hypergeometric, Zipf, Zeta. Single-word inverse transforms (BINV, HIN, both geometric loops) are resolved exactly (1e-15); BTPE, H2PE, PD-Poisson, Zipf, Zeta by lattice x subdivision.",
+         "Not decided: Knuth's product method (Poisson lambda < 12, Binomial's Poisson-limit branch) - no restart structure, one value-producing draw per unit of output; stated in the evidence. References: Loader saddle-point pmfs, Edgeworth expansion for sd > 1.5e5."),
+ "C06": ("model_checking", "exhaustive check of all 4x257 table entries against the ziggurat equations + exhaustive exploration of the primitives' execution tree (first word = all 256 layers x 2^14 strata)",
+         "T+F", "DESIGN.md §5-C06",
+         "Tables: strict monotonicity, end points, F[i] = f(X[i]) to 1e-14, all layer areas equal V = R f(R) + tail(R) to 1e-8, generator recurrence - every entry, through hook H1. Law: StandardNormal and Exp1 explored with the complete product alphabet of the first word, wedge words by exact subdivision, tail words by lattice with dyadic strata; compared with Phi / 1-exp(-x) at 1051 checkpoints down to 1e-9, plus sign symmetry.",
+         "Law decided up to the computed tolerance (about 1e-7 in the body at the quick tier, relative ~10% at tail probability 1e-6)."),
+ "C11": ("model_checking", "engine T law exploration of Dirichlet marginals/ratios (n = 2, n = 3) + deviation-bounded enumeration for the simplex constraints + exhaustive sample/sample_to_slice agreement over the deviation alphabet",
+         "T+D", "DESIGN.md §5-C11",
+         "Simplex part: every execution of the deviation-bounded exploration (all alpha vectors of E up to length 64, 0/1 deviations) is checked for length, [0,1], NaN and sum = 1 within len*2ulp; sample() vs sample_to_slice() into a reused dirty buffer must agree bit for bit over three consecutive samples. Law part: marginals and one ratio for n = 2 (both methods) and, in the thorough tier, n = 3.",
+         "Marginal/ratio laws for n >= 4 and for n = 3 with alpha < 0.2 are not judged (>= 4 value-producing draws / mass within float granularity of 0 and 1)."),
+ "C12": ("model_checking", "engine T exploration of the rejection loops of the four unit-geometry samplers (two/three lattice levels) + deviation-bounded enumeration and all 2^24 f32 first-draw patterns for the norm constraints",
+         "T+D", "DESIGN.md §5-C12",
+         "Norm/NaN: every explored execution. Uniformity: exact finite-alphabet law of angle, r^2, z, longitude, r^3, z/r and two conditional projections against the uniform law.",
+         "Uniformity decided up to one second-level lattice cell (2e-3 quick); a defect confined to a region smaller than a cell (needing two or three simultaneous special words) is outside what is explored."),
  "C05": ("fault_enumeration", "deviation-bounded exhaustive enumeration of RNG answers with a per-call word cap and wall-clock watchdog on the real samplers",
          "D", "DESIGN.md §3.2, §5-C05",
          "Same enumeration as C03; the oracle is the number of RNG words requested by one call (< 1e5) and a 2 s per-call watchdog (constructors included). Catches parameter/word combinations that loop forever or whose acceptance rate collapses.",
          "A hung thread cannot be cancelled: it is reported and abandoned, the process exits at the end. Mean consumption per family is reported from base streams here; the exact expectation is computed by engine T when that engine serves this property."),
 }
 PLANNED = {
- "C01": "check not yet built in this commit (engine T, RNG-tree explorer, in progress)",
- "C02": "check not yet built in this commit (engine T, RNG-tree explorer, in progress)",
  "C04": "check not yet built in this commit (engine F, constructor lattice)",
- "C06": "check not yet built in this commit (engine F tables + engine T primitives)",
  "C07": "check not yet built in this commit (engine D, paired executions)",
  "C08": "check not yet built in this commit (engine F/T alias tables)",
  "C09": "check not yet built in this commit (engine H, history BFS)",
  "C10": "check not yet built in this commit (engine H + target enumeration)",
- "C11": "check not yet built in this commit (engines D + T)",
- "C12": "check not yet built in this commit (engines D + T)",
  "C13": "check not yet built in this commit (2^24 exhaustive push-forward)",
  "C14": "check not yet built in this commit (history exploration)",
  "C15": "check not yet built in this commit (serde round trip enumeration)",
